@@ -503,5 +503,66 @@ void harness(void) { VP_INIT; vp_mkpool(); SufRead SR;
                    replay=replay_writer, note='bounds of the lemma: name up to 2^20 - 1 characters, table up to 2^24 bytes')
 
 
+def h_options_count_accepts(binary):
+    """the reader accepts every option count the writer can write (3..9), text and binary branch of SOLReader2::ReadSOLFile"""
+    from specs import C14
+    fn = Fn(C14.HPP, r'nOpts = Options\[0\];', 'void vp_check_option_count(void)', ordinal=0 if binary else 1,
+            block_end=r'\)\s*(?=\{\s*bad_nOpts:)' if binary else r'goto bad_nOpts;',
+            post='VP_REJECT;' if binary else '', subst=[] if binary else [(r'goto bad_nOpts;', 'VP_REJECT;', 1)],
+            contract='__CPROVER_requires(g_rejected == 0) '
+                     '__CPROVER_ensures((3 <= Options[0] && Options[0] <= 9) ==> !g_rejected) '
+                     '__CPROVER_ensures((Options[0] < 3 || Options[0] > 9) ==> g_rejected) '
+                     '__CPROVER_ensures(nOpts == Options[0]) __CPROVER_assigns(nOpts, g_rejected)',
+            label='mp::SOLReader2::ReadSOLFile [option count check, %s branch]' % ('binary' if binary else 'text'))
+    parts = ['#include "mp_shim.h"\nint vp_one;\ntypedef int Long;\nlong Options[14]; long nOpts; int g_rejected;\n#define VP_REJECT do { g_rejected = 1; } while (0)\n', fn,
+             'void harness(void) { vp_one = 1; Options[0] = nondet_long(); g_rejected = 0; vp_check_option_count(); VP_REACH("normal return"); }\n']
+    return Harness('C05.reader.option_count.accepts.' + ('binary' if binary else 'text'), 'C05', parts, enforce='vp_check_option_count', replay=replay_writer,
+                   note='block of two statements extracted from the options section of the reader')
+
+
+def h_size_check_accepts(which):
+    """the reader accepts the counts the writer writes: 0 <= nprimals <= NumVars, 0 <= nduals <= NumAlgCons (blocks 'Some checks' of ReadSOLFile)"""
+    from specs import C14
+    zi, fnname = (3, 'NumVars') if which == 'vars' else (1, 'NumAlgCons')
+    fn = Fn(C14.HPP, r'j = \(int\)z\[\d\];(?=\s*internal_rv_ = 997;)' if which == 'vars' else r'j = \(int\)z\[\d\];(?=\s*if \(j [<>]=? NumAlgCons)', 'void vp_size_check(void)', block_end=r'return ReportBadFormat\(\);\s*\}',
+            subst=[(r'serror\([^;]*\);', '', 1), (r'return ReportBadFormat\(\);', '{ VP_REJECT; return; }', 1)],
+            contract='__CPROVER_requires(g_rejected == 0 && g_n >= 0) '
+                     '__CPROVER_ensures((0 <= z[%d] && z[%d] <= g_n) ==> !g_rejected) '
+                     '__CPROVER_ensures((z[%d] < 0 || z[%d] > g_n) && z[%d] >= INT_MIN && z[%d] <= INT_MAX ==> g_rejected) '
+                     '__CPROVER_assigns(j, internal_rv_, g_rejected)' % (zi, zi, zi, zi, zi, zi),
+            label='mp::SOLReader2::ReadSOLFile [%s count check]' % fnname)
+    parts = ['#include "mp_shim.h"\nint vp_one;\nlong z[4]; int j, internal_rv_, g_rejected, g_n;\nstatic int %s(void) { return g_n; }\n'
+             '#define VP_REJECT do { g_rejected = 1; } while (0)\n' % fnname, fn,
+             'void harness(void) { vp_one = 1; z[0] = nondet_long(); z[1] = nondet_long(); z[2] = nondet_long(); z[3] = nondet_long(); g_n = nondet_int(); g_rejected = 0; '
+             '__CPROVER_assume(z[%d] >= INT_MIN && z[%d] <= INT_MAX); vp_size_check(); VP_REACH("normal return"); }\n' % (zi, zi)]
+    return Harness('C05.reader.size_check.accepts.' + which, 'C05', parts, enforce='vp_size_check', replay=replay_writer,
+                   note='the counts block holds values read with strtol into int-sized slots (assumed inside int here)')
+
+
+def h_objno_accepts():
+    """the reader accepts the objno line the writer writes: 'objno <int> <int>' (both numbers inside int) and hands on exactly these numbers"""
+    from specs import C14
+    fn = Fn(C14.HPP, r'x = strtod\(s = buf\s*\+\s*\d+, &se\);', 'void vp_parse_objno(void)', block_end=r'Objno\[1\] = \(Long\)x;',
+            subst=[(r'goto bad_objno;', '{ VP_REJECT; return; }', -1), (r'goto f_done;', '{ g_done = 1; return; }', -1)],
+            contract='__CPROVER_requires(g_rejected == 0 && g_done == 0 && g_calls == 0) '
+                     '__CPROVER_ensures((g_ok1 && g_ok2 && g_v1 >= INT_MIN && g_v1 <= INT_MAX && g_v2 >= INT_MIN && g_v2 <= INT_MAX) ==> '
+                     '(!g_rejected && !g_done && objno == (int)g_v1 && Objno[1] == (long)g_v2)) '
+                     '__CPROVER_assigns(x, s, se, objno, Objno[1], g_rejected, g_done, g_calls)',
+            label='mp::SOLReader2::ReadSOLFile [objno line parse]')
+    parts = ['''#include "mp_shim.h"
+int vp_one;
+typedef long Long;
+char buf[512]; char *s, *se; double x; int objno; long Objno[2]; int g_rejected, g_done, g_calls;
+_Bool g_ok1, g_ok2; double g_v1, g_v2;         /* what the two strtod calls find: a number was parsed (ok) and its value */
+#define VP_REJECT do { g_rejected = 1; } while (0)
+static double vp_strtod(char *p, char **end) { g_calls++; _Bool ok = g_calls == 1 ? g_ok1 : g_ok2; double v = g_calls == 1 ? g_v1 : g_v2;
+  *end = ok ? p + 1 : p; return ok ? v : 0.0; }
+#define strtod vp_strtod
+''', fn, 'void harness(void) { vp_one = 1; g_ok1 = nondet_bool(); g_ok2 = nondet_bool(); g_v1 = nondet_double(); g_v2 = nondet_double(); g_rejected = 0; g_done = 0; g_calls = 0; '
+            'vp_parse_objno(); VP_REACH("normal return"); }\n']
+    return Harness('C05.reader.objno.accepts', 'C05', parts, enforce='vp_parse_objno', replay=replay_writer,
+                   stubs=['strtod (arbitrary: parses a number or not; arbitrary value)'])
+
+
 def harnesses():
-    return [h_main(), h_suffix_block(), h_value_writer(False), h_value_writer(True), h_visit_values('int'), h_visit_values('double'), h_counter(), h_sufhead_accepts()]
+    return [h_main(), h_options_count_accepts(False), h_options_count_accepts(True), h_size_check_accepts('vars'), h_size_check_accepts('cons'), h_objno_accepts(), h_suffix_block(), h_value_writer(False), h_value_writer(True), h_visit_values('int'), h_visit_values('double'), h_counter(), h_sufhead_accepts()]
